@@ -239,6 +239,9 @@ package cmd
 //@   modifies ghost(nopen, 0), ghost(nlocked, 0)
 //@   ensures no_leak: ghost(nopen, 0) == old(ghost(nopen, 0)) && ghost(nlocked, 0) == old(ghost(nlocked, 0))
 //@   check notexist: called(readWhisperFileLocal) && ispathne(callret(readWhisperFileLocal, 2)) ==> result0 == nil
+//@   check[C12] no_extra_reject: !called(readWhisperFileLocal) ==> result0 != nil && (called(ParseTimestamp) ==> callret(ParseTimestamp, 1) != nil)
+//@   check[C12] same_window: called(readWhisperFileLocal) ==> callarg(readWhisperFileLocal, 1) == retID && callarg(readWhisperFileLocal, 2) == from
+//@                 && callarg(readWhisperFileLocal, 3) == until && callarg(readWhisperFileLocal, 4) == now
 //@ loop (*app).handleView#0
 //@   invariant bounds: 0 <= i && i <= len(h.archiveInfoList)
 //@   invariant buf: (len(buf) == 0 && buf.arr == 0) || buf.arr > old(top)
@@ -481,6 +484,9 @@ package cmd
 //@   modifies ghost(nopen, 0), ghost(nlocked, 0)
 //@   ensures no_leak: ghost(nopen, 0) == old(ghost(nopen, 0)) && ghost(nlocked, 0) == old(ghost(nlocked, 0))
 //@   check notexist: called(sumWhisperFileLocal) && ispathne(callret(sumWhisperFileLocal, 2)) ==> result0 == nil
+//@   check[C12] no_extra_reject: !called(sumWhisperFileLocal) ==> result0 != nil && (called(ParseTimestamp) ==> callret(ParseTimestamp, 1) != nil)
+//@   check[C12] same_window: called(sumWhisperFileLocal) ==> callarg(sumWhisperFileLocal, 3) == retID && callarg(sumWhisperFileLocal, 4) == from
+//@                 && callarg(sumWhisperFileLocal, 5) == until && callarg(sumWhisperFileLocal, 6) == now
 //@ loop (*app).handleSum#0
 //@   invariant bounds: 0 <= i && i <= len(h.archiveInfoList)
 //@   invariant buf: (len(buf) == 0 && buf.arr == 0) || buf.arr > old(top)
